@@ -167,16 +167,27 @@ class WildSACPolicy(AbstractSACPolicy):
     observation_space: object
     scale: jax.Array
 
-    def __init__(self, env, scale=1.5):
+    planned: bool = eqx.field(static=True, default=False)
+
+    def __init__(self, env, scale=1.5, planned=False):
         self.action_space = env.action_space
         self.observation_space = env.observation_space
         self.scale = jnp.asarray(scale, jnp.float32)
+        self.planned = planned
 
     def reset(self, *, key):
         return CountState(jnp.array(0, jnp.int32))
 
+    def plan(self, n):
+        """planned mode: the chosen action is a function of the policy's own step counter (the key is ignored), so
+        an oracle can recompute what was chosen from the stored policy state"""
+        j = jnp.arange(int(np.prod(self.action_space.shape)), dtype=jnp.float32).reshape(self.action_space.shape)
+        return 2.0 * self.scale * jnp.sin(1.3 * jnp.asarray(n, jnp.float32) + 2.1 * j + 0.4)
+
     def __call__(self, state, observation, *, key=None, action_mask=None):
         shape = self.action_space.shape
+        if self.planned:
+            return CountState(state.n + 1), self.plan(state.n)
         a = jnp.zeros(shape) if key is None else self.scale * jax.random.normal(key, shape)
         return CountState(state.n + 1), a
 
